@@ -30,10 +30,9 @@ use std::{
 };
 
 use dashmap::DashMap;
-use parking_lot::RwLock;
 use tracing::{debug, instrument, warn};
 
-use crate::{SlabColumnValue, SlabRowId, Value};
+use crate::{sync_compat::RwLock, SlabColumnValue, SlabRowId, Value};
 
 /// Transaction phase state machine.
 #[derive(Debug, Clone, Copy, PartialEq, Eq)]
